@@ -29,10 +29,8 @@ try:
             res["tests_pass"] = r.returncode == 0 and all(" 0 failed" in l for l in lines) and len(lines) >= 4
             res["test_lines"] = lines
             shutil.rmtree(os.path.join(work, "target"), ignore_errors=True)
-        ev = os.path.join(VERIF, "evidence")
-        bak = tempfile.mkdtemp(prefix="evbak-")
-        shutil.copytree(ev, bak + "/e")
-        env = dict(os.environ, VERIF_REPO=work)
+        evd = tempfile.mkdtemp(prefix="seed-ev-")
+        env = dict(os.environ, VERIF_REPO=work, VERIF_EVIDENCE_DIR=evd)
         for p in props:
             r = subprocess.run([os.path.join(VERIF, "check"), p], env=env, cwd=VERIF, capture_output=True, text=True)
             viol = [l.strip() for l in r.stdout.splitlines() if l.startswith("  ") and "/" in l]
@@ -40,7 +38,7 @@ try:
                 res["caught_by"].append({"property": p, "reports": [v[:300] for v in viol[:6]]})
             else:
                 res["silent"].append(p)
-        shutil.rmtree(ev); shutil.copytree(bak + "/e", ev); shutil.rmtree(bak)
+        shutil.rmtree(evd, ignore_errors=True)
 finally:
     shutil.rmtree(work, ignore_errors=True)
 print(json.dumps(res, indent=1))
